@@ -94,12 +94,24 @@ class Check(PropertyCheck):
         n = 380 if tier == 'quick' else 12000
         for _ in range(n):
             m = rng.random()
+            lattice = False
             if m < 0.7:
                 d = small_region(rng)
             elif m < 0.9:
                 d = small_region(rng, compound_depth=rng.randint(1, 2))
             else:
                 d = G.gen_simple(rng, kind=rng.choice(['point', 'line', 'text']), scale=1.0, center_scale=3)
+            if rng.random() < 0.08:
+                # lattice-aligned rectangles at angle 0 (exact arithmetic): pixel and sub-sample centres lie exactly ON the
+                # edges - all four edges are open (mask and contains() agree there)
+                kq = rng.choice([1, 1, 2, 4])
+                d = {'kind': 'rectangle', 'include': rng.choice(['absent', 'true', 'false']),
+                     'c': [rng.randint(-3, 3) + rng.choice([0, 0.5, 0.25]), rng.randint(-3, 3) + rng.choice([0, 0.5, 0.25])],
+                     'w': rng.randint(1, 8 * kq) / kq, 'h': rng.randint(1, 8 * kq) / kq, 'angle': [0.0, 'deg']}
+                if rng.random() < 0.3:
+                    d = {'kind': 'rectangle_annulus', 'include': d['include'], 'c': d['c'], 'w1': d['w'], 'h1': d['h'],
+                         'w2': d['w'] + rng.randint(1, 6) / kq, 'h2': d['h'] + rng.randint(1, 6) / kq, 'angle': [0.0, 'deg']}
+                lattice = True
             mm = rng.random()
             if mm < 0.4:
                 mode = {'mode': 'center'}
@@ -109,7 +121,14 @@ class Check(PropertyCheck):
                 mode = {'mode': 'exact'}
             else:
                 mode = {'mode': rng.choice(['bogus', 'subpixels']), 'n': 2.5, 'n_is_int': False}
-            cases.append(G.add_history(rng, {'kind': d['kind'], 'region': d, 'mode': mode}))
+            case = {'kind': d['kind'], 'region': d, 'mode': mode}
+            if lattice and mode.get('mode') in ('center', 'subpixels') and mode.get('n', 1) in (1, 2, 4, 8):
+                # every quantity is a small dyadic number and the angle is exactly 0: mask kernel and contains() compute
+                # exactly, so they must agree at EVERY sample, the ones on an edge included
+                case['exact_lattice'] = True
+                cases.append(case)
+            else:
+                cases.append(G.add_history(rng, case))
         return cases
 
     def real(self, case):
@@ -291,7 +310,7 @@ class Check(PropertyCheck):
                 if n == 1 and Fraction(rv) not in (0, 1):
                     bad('center_mask_not_binary', f'{rv}')
                     return V
-                if real.get('member') is not None and bnd == 0 and inner_included(d):
+                if real.get('member') is not None and (bnd == 0 or case.get('exact_lattice')) and inner_included(d):
                     # the mask against the region's own contains() at the sample centres (masks are those of the
                     # INCLUDED region: the top-level flag is undone; compounds with an excluded operand are skipped)
                     mc = real['member'][j][i]
